@@ -724,6 +724,16 @@ package twig
 //@   ensures[C15] isHit() && e.autoReload && cached().loader == nil ==> err == nil && ret0 == cached() && tr == old(tr)
 //@   ensures[C15] isHit() && e.autoReload && cached().loader != nil && !tsAware() ==> err == nil && ret0 == cached() && tr == old(tr)
 //@   ensures[C15] isHit() && e.autoReload && cached().loader != nil && tsAware() && mtimeErr(cached().loader, name) == nil && mtimeOf(cached().loader, name) <= cached().lastModified ==> err == nil && ret0 == cached() && tr == old(tr)
+// development mode is three settings, not a reset of what is registered or cached
+//@ func (*Engine).SetDevelopmentMode props: C15 C01
+//@   requires e.environment != nil
+//@   ensures[C15,C01] tplSame() && e.environment.cache == !enabled && e.autoReload == enabled
+// the modification time the file system loader answers with comes from the last stat it made, and
+// for a remembered path that is the stat of that path: a template whose file is gone is stale,
+// whatever other directory has a file of that name
+//@ impl (*FileSystemLoader).GetModifiedTime props: C15
+//@   ensures[C15] ret1 == nil ==> laststat
+//@   ensures[C15] ok ==> nstat == old(nstat) + 1
 // switching the cache on or off changes the setting, not what is registered or cached
 //@ func (*Engine).SetCache props: C15 C01 C16
 //@   requires e.environment != nil
@@ -943,6 +953,13 @@ package twig
 // missing") is lost on the way to the parser
 //@ func (*ZeroAllocTokenizer).processBlockTag props: C06 C11
 //@   atcall[C06,C11] (*ZeroAllocTokenizer).tokenizeObjectContents a1 == substr(contextExpr, 1, len(contextExpr) - 1)
+// from .. import: every selected macro is bound, under its alias or its own name, to the macro the
+// library has under that name - also when the name was bound before (the later tag wins, as a
+// later import ... as does)
+//@ define fromName() n.macros[rangeindex]
+//@ define fromTarget() ite(has(n.aliases, fromName()), n.aliases[fromName()], fromName())
+//@ func (*FromImportNode).Render props: C12
+//@   loop 1 step[C12] has(ctx.macros, fromTarget()) && ctx.macros[fromTarget()] == importCtx.macros[fromName()]
 // A macro name is resolved in the innermost context that binds it: the context's own macros first,
 // otherwise exactly what the parent's lookup yields (the event is named, not interpreted), and
 // nothing without a parent - so a call reaches the same macro from every nesting depth.
@@ -1131,6 +1148,9 @@ package twig
 //@   loop 1 snapshot n0 len(t.tokenBuffer)
 //@   loop 1 snapshot in0 inString
 //@   loop 1 step[C20,C08] !in0 && !inString && len(t.tokenBuffer) == n0 && t.position == p0 + 1 ==> t.source[p0] < 128
+// a name token carries the name as it is written (x.OR asks for "OR", not for "or")
+//@   atcall[C20,C08] (*ZeroAllocTokenizer).AddToken#4 a1 == TOKEN_NAME && a2 == substr(t.source, nth(start, 1), t.position)
+//@   atcall[C20,C08] (*ZeroAllocTokenizer).AddToken#5 a1 == TOKEN_NAME && a2 == substr(t.source, nth(start, 1), t.position)
 // a minus sign outside a string is always an operator token of its own (whether it negates or
 // subtracts is the parser's business, so "a -1", "a - 1" and "(a) -1" lex alike)
 //@   loop 1 step[C08] !in0 && p0 < len(t.source) && t.source[p0] == 45 ==> t.position == p0 + 1 && len(t.tokenBuffer) == n0 + 1 && t.tokenBuffer[n0].Type == TOKEN_OPERATOR
@@ -1219,6 +1239,10 @@ package twig
 //@   ghostassign pxi p.tokenIndex
 //@   ghostassign pxe ret0
 //@   ghostassign pxk 2
+// the operand parser only moves the token index (frame of the parse group): it never edits a node
+// that the expression parser has produced, such as the literal between the brackets of x['1']
+//@ func (*Parser).parseOperand props: C20 C08
+//@   atcall[C20,C08] NewGetItemNode a1 == pxe && pxk == 2
 // A prefix operator (not, -, +) binds tighter than every binary operator: its operand is exactly
 // what one simple-expression parse yields, and nothing more is consumed before the node is built.
 //@ func (*Parser).parseSimpleExpression props: C08
@@ -1236,7 +1260,8 @@ package twig
 // tokenizer's own buffer (which ApplyWhitespaceControl then edits in place)
 //@ group tokresult props: C05
 //@   ensures err == nil ==> len(ret0) >= 1
-//@   ensures err == nil ==> ret0 == t.result
+// (C13, C14, C04: the tokens the parser reads are the ones whitespace control has edited)
+//@   ensures[C05,C13,C14,C04] err == nil ==> ret0 == t.result
 //@   ensures err == nil ==> ret0[len(ret0) - 1].Type == TOKEN_EOF
 //@   ensures err == nil ==> ret0[len(ret0) - 1].Value == ""
 //@ apply tokresult (*ZeroAllocTokenizer).TokenizeOptimized
@@ -1302,8 +1327,17 @@ package twig
 //@ func (*CoreExtension).filterLast props: C19
 //@   ensures[C19] typeIs(value, "[]interface{}") ==> ret1 == nil && ret0 == ite(len(asList(value)) > 0, asList(value)[len(asList(value)) - 1], nil)
 //@   ensures[C19] typeIs(value, "string") && len(asStr(value)) > 0 ==> ret1 == nil && typeIs(ret0, "string") && unboxAs(ret0, "string") == str_of_rune(runes_of(asStr(value))[runecount(asStr(value)) - 1])
+// abs of a float is a float: the absolute value of that number (never a truncated integer)
+//@ func (*CoreExtension).filterAbs props: C19
+//@   ensures[C19] typeIs(value, "float64") ==> ret1 == nil && typeIs(ret0, "float64") && unboxAs(ret0, "float64") == fn_Abs_0(unboxAs(value, "float64"))
+// reverse of a typed slice or array: the copy loop fills position i from position n-1-i for every
+// i, and the result is handed out only when it has run to the end
+//@ func (*CoreExtension).filterReverse props: C19
+//@   atcall[C19] (reflect.Value).Set#1 i + j == ufi_rvlen(rv) - 1
+//@   atcall[C19] (reflect.Value).Interface a0 == resultSlice ==> j == 0 - 1 && i == ufi_rvlen(rv)
 // every Go integer type is a number for abs, round and number_format (the conversion does not fail)
 //@ func toFloat64 props: C19
+//@   ensures[C19] typeIs(v, "float64") ==> ret1 == nil && ret0 == unboxAs(v, "float64")
 //@   ensures[C19] typeIs(v, "int") || typeIs(v, "int8") || typeIs(v, "int16") || typeIs(v, "int32") || typeIs(v, "int64") || typeIs(v, "uint") || typeIs(v, "uint8") || typeIs(v, "uint16") || typeIs(v, "uint32") || typeIs(v, "uint64") || typeIs(v, "float32") || typeIs(v, "float64") ==> ret1 == nil
 // last observes what first, length and a for loop observe: a map has a last entry
 //@ func (*CoreExtension).filterLast props: C19
@@ -1391,7 +1425,7 @@ package twig
 //@ func (*CoreExtension).filterReverse props: C05
 //@   loop 1 invariant 0 <= i && i + j == len(runes) - 1
 //@   loop 3 invariant 0 <= i && i + j == len(runes) - 1
-//@   loop 4 invariant 0 <= i && i + j == ufi_rvlen(rv) - 1
+//@   loop 4 invariant 0 <= i && 0 - 1 <= j && i + j == ufi_rvlen(rv) - 1
 // merge of typed maps: the receiver's map type is kept only when the key and element types of
 // every map argument are assignable to it (sameType), which is what SetMapIndex demands
 //@ define fitsMap(A) (ufi_kind(ufV_valueOf(A)) == 21 ==> uf_assignable(ufI_typeKey(ufI_typeOf(ufV_valueOf(A))), ufI_typeKey(ufI_typeOf(rv))) && uf_assignable(ufI_typeElem(ufI_typeOf(ufV_valueOf(A))), ufI_typeElem(ufI_typeOf(rv))))
